@@ -547,7 +547,9 @@ where
                             match &*attr_name {
                                 "class" if !is_component => has_class_binding = true,
                                 "style" if !is_component => has_style_binding = true,
-                                "key" | "on" | "ref" => {}
+                                "key" | "ref" => {}
+                                // turned into listeners below, not emitted as a prop
+                                "on" | "nativeOn" if self.options.transform_on => {}
                                 _ => {
                                     dynamic_props.insert(attr_name.clone());
                                 }
